@@ -381,6 +381,20 @@ pub fn generate(g: &mut Gen, thorough: bool) {
             g.push(super::op_line("default", &res, &[], def, "both", "F", &data), "witness-modifier-only-steps", true);
         }
     }
+    // the built-in name `pipeline` is a definition that refers to itself: as the body of a macro, as a step of one
+    {
+        let res = vec![
+            ("self:made".to_string(), "pipeline".to_string()),
+            ("p:x".to_string(), "pipeline x=$x(1)".to_string()),
+            ("p:in".to_string(), "addone | pipeline | addone".to_string()),
+            ("p:deep".to_string(), "p:in inv".to_string()),
+        ];
+        for def in ["self:made", "self:made inv", "p:x x=3", "p:x", "addone | p:in", "p:deep", "addone | p:deep inv | addone", "pipeline", "addone | pipeline", "pipeline inv", "inv pipeline | addone"] {
+            let data = super::probe_data(1);
+            g.push(super::c09::case("default", &res, def, &data), "oracle-the-name-pipeline", true);
+            g.push(super::op_line("default", &res, &[], def, "both", "F", &data), "witness-the-name-pipeline", true);
+        }
+    }
     // invocations with many arguments, and chains of macros that each add some: however many names are in sight,
     // the caller's value for the one the body asks for is the one it gets
     {
